@@ -238,6 +238,8 @@ def add(x, y, cy=1, what="add"):
     axes, (mx, my) = align([x, y], what)
     cy = D(cy)
     terms = inst(x, mx) + [(c * cy, n) for c, n in inst(y, my)]
+    if len(terms) > 24:
+        terms = normalize_terms(terms, {v for a in axes for v in a})
     return Val(axes, terms)
 
 
@@ -266,7 +268,7 @@ def mul(x, y, what="mul"):
     for c, n in t:
         mm = {i: fresh(ST.size[i], "b") for i in n.vars() if i not in fr}
         out.append((c, n.rename(mm)))
-    return Val(axes, out)
+    return Val(axes, _prune(out, fr))
 
 
 def einsum(spec, *ops, what="einsum"):
@@ -319,7 +321,22 @@ def einsum(spec, *ops, what="einsum"):
             if x not in occ:
                 cc = cc * ST.size[x]
         res.append((cc, n.rename(mm)))
-    return Val(out_axes, res)
+    return Val(out_axes, _prune(res, fr))
+
+
+def _prune(terms, free):
+    """cheap eager simplification: rewrite every term, drop zero terms; merge isomorphic terms when many."""
+    if len(terms) < 4:
+        return terms
+    out = []
+    for c, n in terms:
+        r = simplify(c, n, free)
+        if r is None or r[0].is_zero():
+            continue
+        out.append(r)
+    if len(out) > 24:
+        out = normalize_terms(out, free)
+    return out
 
 
 def expand_dims(v, key):
@@ -650,6 +667,83 @@ def gather_axis(v, ax, idxname, newsize):
 
 # --------------------------------------------------------------------------------- opaque heads
 
+def head_arg_val(hid, ix, axes_like):
+    """the argument of opaque head `hid` applied at indices ix, as a Val whose axes are the given index vars."""
+    info = ST.head[hid]
+    slots = info.bslots + info.mslots
+    m = dict(zip(slots, ix))
+    terms = []
+    for c, n in info.arg[1]:
+        mm = dict(m)
+        for i in n.vars():
+            if i not in mm:
+                mm[i] = fresh(ST.size[i], "b")
+        terms.append((c, n.rename(mm)))
+    return Val(axes_like, terms)
+
+
+def _single_factor(nt):
+    if len(nt) == 1 and len(nt[0][1].f) == 1:
+        return nt[0][0], nt[0][1].f[0]
+    return None
+
+
+def _try_lift(v, nt, fn, protect=0):
+    """f(x o sigma) = f(x) o sigma for per-component functions and batch re-indexings sigma (one-hot Sel heads).
+    If a free axis variable w of v enters every term only through one factor Sel[w, r] with r bound, strip the
+    selection, apply fn to the stripped value and re-apply the selection to the result."""
+    if not nt:
+        return None
+    nax = len(v.axes) - protect
+    for k in range(nax):
+        a = v.axes[k]
+        if len(a) != 1:
+            continue
+        w = a[0]
+        sel = None
+        ok = True
+        picks = []
+        for c, n in nt:
+            occ = [(h, ix) for h, ix in n.f if w in ix]
+            if len(occ) != 1 or ST.head[occ[0][0]].kind != "Sel" or len(occ[0][1]) != 2 or occ[0][1][0] != w:
+                ok = False
+                break
+            h, ix = occ[0]
+            r = ix[1]
+            if r == w or sum(1 for _, jx in n.f for j in jx if j == r) < 1:
+                ok = False
+                break
+            if sel is None:
+                sel = h
+            elif sel != h:
+                ok = False
+                break
+            picks.append(r)
+        if not ok or sel is None:
+            continue
+        # strip
+        rsize = ST.size[picks[0]]
+        if any(ST.size[r] != rsize for r in picks):
+            continue
+        nw = fresh(rsize, "l")
+        terms = []
+        for (c, n), r in zip(nt, picks):
+            f2 = [(h, ix) for h, ix in n.f if not (h == sel and ix == (w, r))]
+            terms.append((c, Net(f2).rename({r: nw})))
+        axes = list(v.axes)
+        axes[k] = (nw,)
+        stripped = Val(axes, terms, kind=v.kind)
+        res = fn(stripped)
+        name = sel[len("Sel:"):]
+
+        def regather(x):
+            return gather_axis(x, k, name, ST.size[w])
+        if isinstance(res, tuple):
+            return tuple(regather(x) for x in res)
+        return regather(res)
+    return None
+
+
 def _occurring(val, nterms):
     occ = set()
     for _, n in nterms:
@@ -708,6 +802,16 @@ def elementwise(kind, v, extra=None):
         return Val(v.axes, [])
     if kind == "Recip" and len(nt) == 1 and not nt[0][1].f and nt[0][0].is_const():
         return Val(v.axes, [(D(1) / nt[0][0], Net())])
+    lifted = _try_lift(v, nt, lambda x: elementwise(kind, x, extra))
+    if lifted is not None:
+        return lifted
+    sf = _single_factor(nt)
+    if sf is not None and sf[0].is_one() and ST.head[sf[1][0]].kind == "Recip" and all(x in set(v.free()) for x in sf[1][1]):
+        inner = head_arg_val(sf[1][0], sf[1][1], v.axes)
+        if kind == "Recip":
+            return Val(v.axes, inner.terms)                 # 1/(1/X) = X
+        if kind == "Log":
+            return neg(elementwise("Log", inner))           # log(1/X) = -log X
     slots = _occurring(v, nt)
     hid, order = _find_or_make(kind, nt, slots, (), False, extra)
     axes, m = fresh_axes(v.axes)
@@ -730,6 +834,9 @@ def inverse(v, what="inverse"):
     v = as_val(v)
     A, B = _matrix_axes(v, what)
     nt = normalize(v)
+    lifted = _try_lift(v, nt, lambda x: inverse(x, what), protect=2)
+    if lifted is not None:
+        return lifted
     axes, m = fresh_axes(v.axes)
     baxes = axes[:-2]
     mvars = tuple(A) + tuple(B)
@@ -746,10 +853,14 @@ def inverse(v, what="inverse"):
             ph = ST.pair[h]
             inv = Val(axes, [(D(1) / c, Net([(ph, tuple(m[x] for x in ix))]))])
             if h not in ST.lndet:
-                lh = f"LnDet({h})"
-                ST.head[lh] = HeadInfo("LnDetAtom")
-                ST.lndet[h] = (1, lh)
-                ST.lndet[ph] = (-1, lh)
+                if ph in ST.lndet:
+                    pc, plh = ST.lndet[ph]
+                    ST.lndet[h] = (-pc, plh)
+                else:
+                    lh = f"LnDet({h})"
+                    ST.head[lh] = HeadInfo("LnDetAtom")
+                    ST.lndet[h] = (1, lh)
+                    ST.lndet[ph] = (-1, lh)
             lc, lh = ST.lndet[h]
             ld_terms = [(D(lc), Net([(lh, tuple(m[x] for x in ix[:-2]))]))]
             if not c.is_one():
@@ -792,12 +903,21 @@ def logdet(v, what="slogdet"):
     v = as_val(v)
     A, B = _matrix_axes(v, what)
     nt = normalize(v)
+    lifted = _try_lift(v, nt, lambda x: logdet(x, what), protect=2)
+    if lifted is not None:
+        return lifted
     axes, m = fresh_axes(v.axes)
     baxes = axes[:-2]
     mvars = tuple(A) + tuple(B)
     if len(nt) == 1 and len(nt[0][1].f) == 1 and nt[0][0].is_one() and A and B:
         c, n = nt[0]
         h, ix = n.f[0]
+        if len(ix) >= 2 and set(ix[-2:]) == {A[0], B[0]} and ST.head[h].sym and h not in ST.lndet and all(x in m for x in ix) and len(set(ix)) == len(ix):
+            lh = f"LnDet({h})"
+            ST.head[lh] = HeadInfo("LnDetAtom")
+            ST.lndet[h] = (1, lh)
+            if h in ST.pair:
+                ST.lndet[ST.pair[h]] = (-1, lh)
         if len(ix) >= 2 and set(ix[-2:]) == {A[0], B[0]} and h in ST.lndet and all(x in m for x in ix) and len(set(ix)) == len(ix):
             lc, lh = ST.lndet[h]
             return Val(baxes, [(D(lc), Net([(lh, tuple(m[x] for x in ix[:-2]))]))])
@@ -903,6 +1023,28 @@ def simplify(coef, net, free):
                 f[k] = (ST.diag[h], ix[:-1])
                 f.append(("delta", (ix[-2], ix[-1])))
                 changed = True
+                break
+        if changed:
+            continue
+        # ---- reciprocal:  Recip(X)[..] * X[..] -> 1   (X a single head)
+        for i1, (h1, x1) in enumerate(f):
+            info = H[h1]
+            if info.kind != "Recip":
+                continue
+            arg = info.arg[1]
+            if len(arg) != 1 or not arg[0][0].is_one() or len(arg[0][1].f) != 1:
+                continue
+            h2, sx2 = arg[0][1].f[0]
+            m = dict(zip(info.bslots, x1))
+            if any(x not in m for x in sx2):
+                continue
+            want = tuple(m[x] for x in sx2)
+            for i2, (hh, xx) in enumerate(f):
+                if i2 != i1 and hh == h2 and (xx == want or (H[h2].sym and len(xx) >= 2 and xx[:-2] + (xx[-1], xx[-2]) == want)):
+                    f = [g for k, g in enumerate(f) if k not in (i1, i2)]
+                    changed = True
+                    break
+            if changed:
                 break
         if changed:
             continue
